@@ -140,6 +140,65 @@ def build(desc, root):
                 else:
                     d["extra_key"] = new
         return ("SJobDoc" if kind == "jobdoc" else "SProjectDoc"), act
+    if kind == "lifecycle":
+        # document writes reached through (or after) lifecycle methods of a Job object: Job.clear() / Job.reset() (for the
+        # document they are document.clear()), and writes through a Job object AFTER its state point was changed (the
+        # directory moved, the document handle is re-created) or after remove() - with the document handle opened
+        # before the lifecycle call or not, through the object itself or a shallow copy of it
+        import copy
+        project = signac.init_project(path=root)
+        job = project.open_job({"a": 1}).init()
+        old = _doc(desc["old"], 0)
+        if old is not None:
+            _write_plain(os.path.join(job.path, "signac_job_document.json"), old)
+        new = _doc(desc["new"], 1)
+
+        def act(tracing):
+            p2 = signac.get_project(root)
+            obtain = desc.get("obtain", "id")
+            if obtain == "id":
+                j = p2.open_job(id=job.id)
+            elif obtain == "iter":
+                j = next(iter(p2))
+            elif obtain == "getjob":
+                j = signac.get_job(job.path)
+            else:
+                j = p2.open_job({"a": 1})
+            if desc["accessed"]:
+                j.document()                       # the document handle exists before the lifecycle call
+            w = j
+            pre = desc["pre"]
+            if pre == "copy-rekey":
+                w = copy.copy(j)                   # the change is made through a shallow copy, the write through j
+                w.sp.b = 2
+                w = j
+            elif pre == "rekey-attr":
+                j.sp.b = 2
+            elif pre == "rekey-update":
+                j.update_statepoint({"b": 2})
+            elif pre == "rekey-assign":
+                j.statepoint = {"a": 1, "b": 2}
+            elif pre == "remove":
+                j.remove()
+            elif pre == "reinit":
+                j.init(force=True)
+            write = desc["write"]
+            if write == "buffered":
+                with tracing(), signac.buffered():
+                    w.doc["extra_key"] = new
+            else:
+                with tracing():
+                    if write == "jobclear":
+                        w.clear()
+                    elif write == "jobreset":
+                        w.reset()
+                    elif write == "reset":
+                        w.document.reset(new)
+                    elif write == "assign":
+                        w.doc = new
+                    else:
+                        w.doc["extra_key"] = new
+        return "SJobDoc", act
     if kind == "flush":
         project = signac.init_project(path=root)
         jobs = [project.open_job({"a": i}).init() for i in range(desc["njobs"])]
@@ -275,9 +334,14 @@ def build(desc, root):
                     p2.import_from(src_root)
         return "SFlush", act
     if kind == "migration":
-        os.makedirs(os.path.join(root, "workspace"))
+        # v1 layout; optionally with a custom workspace directory and the v1 state point cache file, which the migration
+        # MOVES to its v2 name (one rename of a complete file: the cache file appears atomically)
+        os.makedirs(os.path.join(root, "ws_old" if desc.get("custom_ws") else "workspace"))
         with open(os.path.join(root, "signac.rc"), "w") as fh:
-            fh.write("project = myproject\nschema_version = 1\n")
+            fh.write("project = myproject\nschema_version = 1\n" + ("workspace_dir = ws_old\n" if desc.get("custom_ws") else ""))
+        if desc.get("v1cache"):
+            with gzip.open(os.path.join(root, ".signac_sp_cache.json.gz"), "wb") as fh:
+                fh.write(json.dumps({"%032x" % i: {"i": i} for i in range(5)}).encode())
         if desc.get("olddoc"):
             _write_plain(os.path.join(root, "signac_project_document.json"), {"existing": 1})
 
@@ -559,8 +623,14 @@ def run_scenario(desc, work):
             if o.op in ("utime", "chmod"):
                 return True                      # mode / time stamps only, the content is not touched
             return o.op == "unlink" and not any(os.path.basename(p) in DOC_NAMES for p in names)
+        def whole_file_move(o):
+            # a complete file that was not written in this trace is given the document's / cache file's name by ONE
+            # rename (the v1->v2 migration moves the old cache file into .signac/): atomic by the trusted base, not a
+            # write of content; anything else that brings content under such a name is a write episode
+            return (o.op == "rename" and not doc_related(o.path) and o.path2 is not None
+                    and os.path.basename(o.path2) in DOC_NAMES)
         for n, o in enumerate(muts):
-            if n not in covered and not only_side_file(o) and (doc_related(o.path) or doc_related(o.path2) or doc_related(o.cur)):
+            if n not in covered and not only_side_file(o) and not whole_file_move(o) and (doc_related(o.path) or doc_related(o.path2) or doc_related(o.cur)):
                 broken = broken + ["entry outside every write episode: " + o.brief()]
         # ---- second, identical run with readers: descriptors opened at every position, read at every later one
         readers = {}   # target -> {(i, j): bytes|None}, positions = number of completed mutations
@@ -804,6 +874,22 @@ def gen_inputs(tier, rng):
                                   "how": rng.choice(["set", "reset"]), "buffered": False})
             descs.append({"kind": "clone", "threads": thr, "on": on, "via": "pickle", "accessed": True,
                           "old": "small", "new": "large", "buffered": True})
+        # document writes through / after lifecycle methods of a Job object (Job.clear / Job.reset; writes after a state
+        # point change, remove(), init(force=True)); document handle opened before the lifecycle call or not
+        for accessed in (False, True):
+            for write in ("jobclear", "jobreset"):
+                descs.append({"kind": "lifecycle", "threads": thr, "pre": "none", "accessed": accessed, "write": write,
+                              "old": rng.choice(["small", "large"]), "new": "empty",
+                              "obtain": rng.choice(["id", "iter", "getjob", "sp"])})
+            pres = ["rekey-attr", "rekey-update", "rekey-assign", "copy-rekey", "remove", "reinit"]
+            for pre in (pres if not quick else rng.sample(pres[:4], 2) + rng.sample(pres[4:], 1)):
+                descs.append({"kind": "lifecycle", "threads": thr, "pre": pre, "accessed": accessed,
+                              "write": rng.choice(["set", "reset", "assign", "buffered"]),
+                              "old": rng.choice(["small", "large"]), "new": rng.choice(["small", "large"]),
+                              # an object opened by id in a fresh session cannot re-create a removed job (by design)
+                              "obtain": "sp" if pre == "remove" else rng.choice(["id", "iter", "getjob", "sp"])})
+            descs.append({"kind": "lifecycle", "threads": thr, "pre": rng.choice(pres[:4]), "accessed": accessed,
+                          "write": rng.choice(["jobclear", "jobreset"]), "old": "small", "new": "empty", "obtain": "sp"})
         fq = [(2, 1, None, ["find"], "modify-first"), (3, 2, 60, ["find", "len", "iter"], "modify-first"),
               (2, 2, None, ["groupby", "iter"], "query-first")]
         if not quick:
@@ -814,6 +900,7 @@ def gen_inputs(tier, rng):
                           "queries": queries, "order": order, "project": nj % 2 == 1, "pad": rng.choice([5, 200])})
         descs.append({"kind": "migration", "threads": thr, "olddoc": False})
         descs.append({"kind": "migration", "threads": thr, "olddoc": True})
+        descs.append({"kind": "migration", "threads": thr, "olddoc": thr is True, "custom_ws": True, "v1cache": True})
         caches = [(0, 3, 0, False), (3, 5, 0, False), (5, 6, 3, False), (40, 120, 0, True)]
         if not quick:
             caches += [(0, 400, 0, False), (400, 401, 150, False), (120, 300, 20, True), (1, 2, 0, True)]
